@@ -7,6 +7,9 @@ def U(*a, **k): UNITS.append(Unit(*a, **k))
 for d in (1, 2, 3):
     U('C01', 'C01_step.cpp', defines=dict(DIM=d, NB=3, SB=6), unwind=6, timeout=900)
 U('C01', 'C01_step.cpp', defines=dict(DIM=4, NB=3, SB=4, FB=1), unwind=6, timeout=3000, tier='thorough')
+U('C01', 'C01_paren.cpp', defines=dict(DIM=2, NB=3, SB=4, KSTEPS=2), unwind=6, timeout=1200)
+U('C01', 'C01_paren.cpp', defines=dict(DIM=3, NB=2, SB=3, KSTEPS=2), unwind=6, timeout=1800)
+U('C01', 'C01_paren.cpp', name='C01_machine_K3', defines=dict(DIM=2, NB=3, SB=4, KSTEPS=3), entries=['machine'], unwind=6, timeout=3600, tier='thorough')
 
 # ---- C02 iterators, flat element ranges
 for d in (1, 2, 3):
@@ -45,6 +48,8 @@ U('C07', 'C07_compare.cpp', name='C07_triples_DIM2', defines=dict(DIM=2, NB=2, S
 U('C04', 'C04_value.cpp', defines=dict(DIM=1, NB=3, ELT='int', SLOT_CELLS=3), unwind=6, timeout=1200, heap=128)
 U('C04', 'C04_value.cpp', defines=dict(DIM=2, NB=2, ELT='int', SLOT_CELLS=6), unwind=7, timeout=1800, heap=128, slots=2, tier='thorough')
 U('C04', 'C04_value.cpp', defines=dict(DIM=1, NB=2, ELT='Tr', SLOT_CELLS=3), unwind=5, timeout=1800, heap=128, slots=2)
+# D=0: copy/move construction of a 0-D array is ill-formed with assertions enabled (assert(this->stride() != 0) names a deleted function), hence -DNDEBUG
+U('C04', 'C04_zero.cpp', defines=dict(SLOT_CELLS=1, NDEBUG=1), unwind=5, timeout=600, heap=128)
 U('C04', 'C04_value.cpp', defines=dict(DIM=2, NB=2, ELT='Tr', SLOT_CELLS=6), unwind=7, timeout=3600, heap=128, tier='thorough', slots=2)
 
 # ---- C06 reextent, clear, reshape, assign
